@@ -17,10 +17,29 @@ def main():
     mod = importlib.import_module("p_" + pid.lower())
     sys.path.insert(0, common.REPO)
     if a.replay:
+        # replay = re-run the generators of the recorded run (same tier and seed: every random choice derives from that seed)
+        # against the CURRENT implementation and look for the recorded failing input again
         rep = json.load(open(a.replay))
-        ok = mod.replay(rep)
-        print("replay: property %s %s on this input" % (pid, "HOLDS" if ok else "FAILS"))
-        sys.exit(0 if ok else 1)
+        if rep.get("kind") != "failing-input":
+            print("replay: %s names no failing input (what no longer checked: %s)" % (a.replay, "; ".join(rep.get("no_longer_checks", []))[:400]))
+            sys.exit(1)
+        ctx = Ctx(pid, rep.get("tier", "quick"), int(rep.get("seed", 0)))
+        try:
+            mod.run(ctx)
+        except Exception as e:
+            print("replay: the run raised %r" % (e,))
+            sys.exit(1)
+        want = rep["violation"]
+        same_key = [v for v in ctx.violations if v["key"] == want["key"]]
+        same_input = [v for v in same_key if json.dumps(v.get("input"), sort_keys=True, default=str) == json.dumps(want.get("input"), sort_keys=True, default=str)]
+        if same_input:
+            print("replay: property %s FAILS on the recorded input: %s" % (pid, same_input[0]["what"][:300]))
+            sys.exit(1)
+        if same_key:
+            print("replay: the recorded input no longer fails, but %d other input(s) fail the same oracle (%s): %s" % (len(same_key), want["key"], same_key[0]["what"][:300]))
+            sys.exit(1)
+        print("replay: property %s HOLDS on the recorded input (oracle %s, %d oracle evaluations in the re-run)" % (pid, want["key"], ctx.oracle_total))
+        sys.exit(0)
 
     if a.tier == "thorough":
         mod.LEAN_TARGETS = list(mod.LEAN_TARGETS) + list(getattr(mod, "LEAN_TARGETS_THOROUGH", []))
